@@ -162,7 +162,13 @@ class ValueSet:
         return None
 
     def stridedinterval(self):
-        return self._si
+        # The flattened view is computed from the regions: not every operation keeps the cached copy (self._si) up to
+        # date (and, mod, intersection, union and widen replaced regions without touching it).
+        flat = StridedInterval.empty(self.bits)
+        for region, offsets in self._regions.items():
+            base = self._region_base_addrs.get(region)
+            flat = flat.union(offsets if base is None else base + offsets)
+        return flat
 
     def __repr__(self):
         s = ""
